@@ -8,7 +8,10 @@ Then stores it as /verif/seeded/<PROP>-<k>/ (patch.diff, demo.py, meta.json).
 import json, os, shutil, subprocess, sys
 
 prop, k, tests = sys.argv[1], sys.argv[2], sys.argv[3:]
-src = f"/tmp/seed/out/{prop}"
+# round-2 seeds: SEED_ROOT=/tmp/seed2, stored as <PROP>-<k+2>
+root = os.environ.get("SEED_ROOT", "/tmp/seed")
+src = f"{root}/out/{prop}"
+store_k = str(int(k) + int(os.environ.get("SEED_OFFSET", "0")))
 d = f"/dev/shm/confirm-{prop}-{k}"
 env = dict(os.environ, PYTHONPATH=d, PYTHONHASHSEED="0")
 
@@ -26,7 +29,7 @@ try:
         print("PATCH DOES NOT APPLY", ap.stderr)
         sys.exit(3)
     # regenerate the patch against the current HEAD (fix commits may have shifted lines)
-    diff = sh("git diff").stdout
+    diff = sh("git diff HEAD").stdout
     r1 = sh("/venv/bin/python _demo.py", timeout=1800)
     t = None
     if tests:
@@ -40,7 +43,7 @@ try:
     ok = r0.returncode == 0 and r1.returncode != 0 and (t is None or t.returncode == 0)
     print("CONFIRMED" if ok else "NOT CONFIRMED")
     if ok:
-        out = f"/verif/seeded/{prop}-{k}"
+        out = f"/verif/seeded/{prop}-{store_k}"
         os.makedirs(out, exist_ok=True)
         open(f"{out}/patch.diff", "w").write(diff)
         shutil.copy(f"{src}/demo{k}.py", f"{out}/demo.py")
